@@ -648,3 +648,8 @@ Proof.
            (map (fun l : list (Z * Z) => (l, false)) (o :: r)).
     rewrite (read_f_no_error (o :: r) None None Hoc I). reflexivity.
 Qed.
+
+(* tie T: the comparison of downsampleRawLoop's batch-extension loop in the Go source is the
+   inclusive `<=` the model's take_le uses (curW is the window's last millisecond) *)
+Lemma ext_take_model : forall t w, ext_take t w = (t <=? w).
+Proof. intros t w. reflexivity. Qed.
